@@ -56,6 +56,11 @@ def tasks(tier, seed):
             for site in range(L):
                 ts.append(dict(name=f'mixed_L{L}_s{site}_{"c" if cplx else "r"}', kind='mixed', L=L, site=site, d=2, Dmax=2, DW=2, cplx=cplx, cut=4))
     ts.append(dict(name='steps_L2', kind='steps', L=2, d=2, Dmax=2, DW=2, cplx=True, cut=3))
+    # longer chains with all bond dimensions 1 (product states and product operators): length-dependent slips (every k-th site, last site,
+    # L >= 4) for all entry values
+    for L in (4, 5, 6):
+        ts.append(dict(name=f'scalars_L{L}_D1_r', kind='scalars', L=L, d=2, Dmax=1, DW=1, cplx=False, cut=3))
+    # (complex entries at L = 5 do not finish within 10 min even for bond dimension 1: not part of the claim)
     if not q:
         for site in range(2):
             ts.append(dict(name=f'local1_L2_s{site}_r_D3', kind='local1', L=2, site=site, d=2, Dmax=3, DW=3, cplx=False, cut=3))
@@ -341,6 +346,11 @@ def path(eng, acc, task):
 def validate(seed, tier):
     rng = np.random.default_rng(seed)
     n = 0
+    # longer chains than the symbolic bound (L = 4..8), scalar-valued functions only: sampling on the real code
+    for L in (4, 5, 6, 7, 8):
+        runner.concrete_check('operation', dict(concrete.random_operation_input(rng, L, zero_q=True), kind='scalars', site=0))
+        runner.concrete_check('operation', dict(concrete.random_operation_input(rng, L), kind='scalars', site=0))
+        n += 2
     for L in (1, 2, 3):
         inp = concrete.random_operation_input(rng, L)
         for kind in ('scalars', 'local1', 'local2', 'local0'):
